@@ -133,7 +133,7 @@ def regfam_probes(ctx, d):
     rng = ctx.rng
     saved, d.flags = d.flags, "none"
     for prefix, letters in fams.items():
-        for tag in ("", "-1", "-Acc", "_Ptr2"):
+        for tag in ("", "-1", "-Acc", "_Ptr2", ".acc"):
             name = prefix + tag
             l1 = rng.choice(list(letters))
             l2 = rng.choice([x for x in letters if x != l1] or [l1])
@@ -191,6 +191,33 @@ def regfam_probes(ctx, d):
     d.flags = saved
 
 
+def case_twin_probes(ctx, d):
+    """Capture names that differ only in letter case, or that contain dots, are different / ordinary names (identical at every seed)."""
+    from jv import dsl, listing as L
+    rng = ctx.rng
+    insts = [L.SInst(0x401000, "mov", ["%rax", "%rbx"], None, None, 3), L.SInst(0x401003, "add", ["%rbx", "%rax"], None, None, 3),
+             L.SInst(0x401006, "mov", ["%rcx", "%rdx"], None, None, 3), L.SInst(0x401009, "add", ["%rcx", "%rdx"], None, None, 3),
+             L.SInst(0x40100c, "mov", ["%rsi", "%rsi"], None, None, 3), L.SInst(0x40100f, "add", ["%rsi", "%rsi"], None, None, 3),
+             L.SInst(0x401012, "push", ["%rdi"], None, None, 1), L.SInst(0x401013, "push", ["%rdi"], None, None, 1), L.SInst(0x401014, "ret", [], None, None, 1)]
+    prep = dsl.Prepared(d.ws, insts, rng)
+    ctx.ran()
+    if not prep.verify(d.ws):
+        ctx.inconc("parser disagreement on synthetic listing")
+        return
+    saved, d.flags = d.flags, "none"
+    d.prep, d.style = prep, "case-twin-probe"
+    for a, b in (("&Reg", "&reg"), ("&r", "&R"), ("&src.v1", "&src.v2"), ("&a.b", "&a"), ("&X-1", "&x-1")):
+        d.run_pattern([{"mov": [a, b]}, {"add": [b, a]}], "base", True)
+        d.run_pattern([{"mov": [a, b]}, {"add": [a, b]}], "base", True)
+        d.run_pattern([{"mov": [a, a]}, {"add": [b, b]}], "base", True)
+    for a, b in (("&I", "&i"), ("&ins.1", "&ins.2")):
+        d.run_pattern([a, {"add": ["%rbx"]}, b, {"add": ["%rcx"]}], "base", True)
+        d.run_pattern([a, a], "base", True)
+        d.run_pattern([a, b], "base", True)
+        ctx.event("case_twin_probes")
+    d.flags = saved
+
+
 def run_shard(ctx):
     d = drive.Driver(ctx, feat, flags="random", styles=("tiny", "tiny", "dups", "regs"), quirks=QUIRKS, classify=classify,
                      accept=reuses_capture, interesting=reuses_capture, extra=twice)
@@ -198,6 +225,8 @@ def run_shard(ctx):
         numbering_probes(ctx, d)
     if ctx.shard in (1, 2, 3):
         regfam_probes(ctx, d)
+    if ctx.shard == 4 % ctx.nshards:
+        case_twin_probes(ctx, d)
     d.loop(3500, 300000)
 
 
